@@ -283,6 +283,13 @@ func probeSpec(p *Program) adapt.Spec {
 func (e *explorer) resolve() {
 	p := e.p
 	p.effFill, p.effKeep = 0, 0
+	p.Spec.Alias = nil
+	if p.Collide && (p.Spec.Kind == "map" || p.Spec.Kind == "cache") && p.Hot >= 3 {
+		if a, b, ok := adapt.CollidingStringKeys(p.Layout, 32); ok {
+			p.Spec.Alias = map[int]int{0: a, 2: b}
+			stats.Inc("steered_tophash_collision_programs")
+		}
+	}
 	if p.Mode == "" {
 		return
 	}
